@@ -14,10 +14,10 @@ def run(tier, seed):
     wait = ['P03', 'P05', 'P06', 'P10', 'P13', 'P21', 'P22']
     if tier == 'quick':
         mc = [dict(name='C06_env', progs=C.fam(wait), plans=[[]], alphabet=alpha, k=4, invariants=INV, overrides=ov, extra_defs=xd),
-              dict(name='C06_awaitables', progs=C.fam(['W1', 'W3', 'W4']), plans=[[]], alphabet=['complete', 'pause', 'play', 'kill'], k=4, invariants=INV)]
+              dict(name='C06_awaitables', progs=C.fam(['W1', 'W3', 'W4', 'W6']), plans=[[]], alphabet=['complete', 'pause', 'play', 'kill'], k=4, invariants=INV)]
         rp = [dict(name='C06_env', progs=C.fam(['P03', 'P05', 'P10']), plans=[[]], alphabet=alpha, k=3, overrides=ov, extra_defs=xd),
               dict(name='C06_wake4', progs=C.fam(['P03']), plans=[[]], alphabet=['resume', 'pause', 'play'], k=4, overrides=ov, extra_defs=xd),
-              dict(name='C06_awaitables', progs=C.fam(['W1', 'W3']), plans=[[]], alphabet=['complete', 'pause', 'play', 'kill'], k=3)]
+              dict(name='C06_awaitables', progs=C.fam(['W1', 'W3', 'W6']), plans=[[]], alphabet=['complete', 'pause', 'play', 'kill'], k=3)]
     else:
         mc = [dict(name='C06_env', progs=C.fam(wait), plans=[[]], alphabet=alpha, k=6, invariants=INV, overrides=ov, extra_defs=xd),
               dict(name='C06_awaitables', progs=C.fam(['W1', 'W2', 'W3', 'W4', 'W5']), plans=[[]], alphabet=['complete', 'pause', 'play', 'kill'], k=5, invariants=INV)]
